@@ -288,7 +288,7 @@ fn main() {
             .map(|c| (c[0] as u16) << 8 | *c.get(1).unwrap_or(&0) as u16)
             .collect();
         let mut code = 2;
-        for s in vcheck::registry::subs_for(&args[2]) {
+        for s in all_subs_for(&args[2]) {
             if !vcheck::registry::fuzzable(s.p.dname()) {
                 continue;
             }
